@@ -15,6 +15,19 @@ PROP = "C45"
 READY = True
 DRIVER = "dm_dfpart"
 LEAN_MODULES = ["DaskModel.Props.C45"]
+LEVEL_TEXT = ("Lean 4 theorems, for every sorted sequence and both modes (npartitions/chunksize), about a line-by-line "
+              "transliteration of sorted_division_locations: locations strictly increase from 0 to len "
+              "(sdl_locations_strict), every division is the value at its location and the last is the last value "
+              "(sdl_division_is_value_at_location, sdl_last), no boundary splits equal values (sdl_no_straddle, "
+              "sdl_boundary_first_occurrence), whenever the function returns (proved by a loop invariant, no size bound). "
+              "'npartitions met exactly when enough distinct values', termination/no-IndexError and the quantile "
+              "divisions (process_val_weights / RepartitionQuantiles: non-decreasing, span min..max) are VALIDATED only: "
+              "exhaustive over all sorted sequences of length <= 6 over 3 letters (thorough: <= 9 over 4) x all "
+              "npartitions/chunksize plus random longer ones, and random quantile inputs.")
+LEVEL_NOTE = ("Trusted: Lean kernel + standard axioms; the differential tie model<->sorted_division_locations (function "
+              "level, every run); values compared only through <,<=,== (interned order-preservingly); bisect/sorted/set "
+              "of CPython; numpy searchsorted/interp inside process_val_weights (oracle-checked, not modelled).")
+TECHNIQUE = "Lean 4 proof (loop invariant over an executable transliteration) + differential correspondence + property oracle on the real code"
 ASSUMPTIONS = ["values are compared only through <, <=, == (interned order-preservingly to Nat for the model)",
                "bisect.bisect_left on a sorted list = number of leading elements < x"]
 
@@ -100,7 +113,59 @@ def case_from_pandas(ctx, inp):
     ctx.branch("from_pandas")
 
 
-CASES = {"sdl": case_sdl, "from_pandas": case_from_pandas}
+def _conv(kind):
+    return {"int": lambda v: v, "str": lambda v: "k%04d" % v, "float": lambda v: v * 0.5 - 3.0}[kind]
+
+
+def case_quantiles(ctx, inp):
+    """API level: RepartitionQuantiles (the divisions set_index/sort_values compute) are non-decreasing,
+    have npartitions+1 entries and span the data's minimum and maximum."""
+    import pandas as pd
+    from core import import_dd
+    dd = import_dd()
+    vals = [_conv(inp["kind"])(v) for v in inp["vals"]]
+    s = pd.Series(vals, name="k")
+    ds = dd.from_pandas(s, npartitions=inp["nin"], sort=False)
+    try:
+        q = list(ds._repartition_quantiles(inp["nout"], upsample=inp.get("upsample", 1.0)).compute())
+    except Exception as e:
+        ctx.fail("RepartitionQuantiles raised on non-empty data", observed=f"{type(e).__name__}: {e}")
+        return
+    ctx.branch("quantiles-" + inp["kind"] + ("-undersampled" if len(set(vals)) < inp["nout"] + 1 else ""))
+    if len(q) != inp["nout"] + 1:
+        ctx.fail("quantile divisions: wrong number of entries", observed=q, expected=inp["nout"] + 1)
+    if any(a > b for a, b in zip(q, q[1:])):
+        ctx.fail("quantile divisions decrease", observed=q)
+    if q[0] != min(vals) or q[-1] != max(vals):
+        ctx.fail("quantile divisions do not span min..max of the data", observed=[q[0], q[-1]], expected=[min(vals), max(vals)])
+
+
+def case_pvw(ctx, inp):
+    """Function level: process_val_weights on a merged summary (strictly increasing vals, positive weights)."""
+    import numpy as np
+    from core import import_dd
+    import_dd()
+    from dask.dataframe.partitionquantiles import process_val_weights
+    vals = [_conv(inp["kind"])(v) for v in inp["vals"]]
+    dtype = np.array(vals).dtype
+    try:
+        rv = list(process_val_weights((vals, inp["weights"]), inp["n"], (dtype, None)))
+    except Exception as e:
+        ctx.fail("process_val_weights raised", observed=f"{type(e).__name__}: {e}")
+        return
+    k = len(vals) - (inp["n"] + 1)
+    ctx.branch("pvw-" + ("exact" if k == 0 else "undersampled" if k < 0 else "oversampled") + "-" + inp["kind"])
+    if len(rv) != inp["n"] + 1:
+        ctx.fail("process_val_weights: wrong number of divisions", observed=rv)
+    if any(a > b for a, b in zip(rv, rv[1:])):
+        ctx.fail("process_val_weights: divisions decrease", observed=rv)
+    if rv[0] != vals[0] or rv[-1] != vals[-1]:
+        ctx.fail("process_val_weights: divisions do not span first..last value", observed=rv, expected=[vals[0], vals[-1]])
+    if k >= 0 and any(x not in vals for x in rv):
+        ctx.fail("process_val_weights: a division is not one of the summarised values", observed=rv)
+
+
+CASES = {"sdl": case_sdl, "from_pandas": case_from_pandas, "quantiles": case_quantiles, "pvw": case_pvw}
 
 
 def _sorted_seqs(maxlen, letters):
@@ -133,3 +198,13 @@ def generate(ctx):
         ln = rng.randint(1, 25)
         seq = sorted(rng.randint(0, rng.choice([3, 8, 30])) for _ in range(ln))
         yield "from_pandas", {"seq": seq, "mode": rng.choice(["npartitions", "chunksize"]), "n": rng.randint(1, ln + 1)}
+    for _ in range(ctx.n(300, 3000)):
+        nv = rng.randint(1, 14)
+        vals = sorted(rng.sample(range(60), nv))
+        weights = [rng.choice([0.5, 1.0, 2.0, 3.5, 10.0, 40.0]) for _ in vals]
+        yield "pvw", {"vals": vals, "weights": weights, "n": rng.randint(1, 12), "kind": rng.choice(["int", "float", "str"])}
+    for _ in range(ctx.n(40, 400)):
+        ln = rng.randint(1, 40)
+        vals = [rng.randint(0, rng.choice([2, 5, 20, 100])) for _ in range(ln)]
+        yield "quantiles", {"vals": vals, "kind": rng.choice(["int", "float", "str"]), "nin": rng.randint(1, min(ln, 6)),
+                            "nout": rng.randint(1, 8), "upsample": rng.choice([1.0, 1.0, 0.3, 4.0])}
